@@ -438,3 +438,17 @@ mod tests {
         assert_eq!(editor.text_range(range), expected);
     }
 }
+
+#[cfg(funbiscuit_embedded_cli_rs_verif)]
+impl<B: Buffer> Editor<B> {
+    pub fn __verif_from_parts(buffer: B, cursor: usize, valid: usize) -> Self {
+        Self {
+            buffer,
+            cursor,
+            valid,
+        }
+    }
+    pub fn __verif_parts(&self) -> (&[u8], usize, usize) {
+        (self.buffer.as_slice(), self.cursor, self.valid)
+    }
+}
